@@ -894,8 +894,9 @@ def check_ladder(res, case, ctx):
                         'lengths': [len(want), len(got) if hasattr(got, '__len__') else None]}, None)
         res.outcome('ladder:%s:%s:differs' % (layout, size))
         return
-    if layout == 'flat' and enc == 'ACGT' and n % 3 == 0:
-        # translation of the same letters, handed over as a one-row ASCII collection (the input form check_tr judges)
+    if layout == 'flat' and enc == 'ACGT':
+        # translation of N CODONS (3N letters), handed over as a one-row ASCII collection (the input form check_tr judges)
+        text = ladder_text(enc, 3 * n)
         res.transitions += 1
         try:
             t = observe_seq(L.tr(L.as_encoded_array([text], L.enc['ASCII'])))
